@@ -189,6 +189,9 @@ pub struct GenCfg {
     /// one of the next registrations) or plain, in about equal parts; no batches / thread-local
     /// systems, so that tags are the builder's ids
     pub placeholder_names: bool,
+    /// the case starts with a batch in which a system joins an existing group (hints) and is the
+    /// only one of the batch to declare some id, followed by an outer system that touches that id
+    pub join_batch: bool,
 }
 impl GenCfg {
     pub fn base() -> GenCfg {
@@ -216,6 +219,7 @@ impl GenCfg {
             prefix_deep: (0, 0),
             fat: false,
             placeholder_names: false,
+            join_batch: false,
         }
     }
     pub fn profile(name: &str) -> GenCfg {
@@ -304,6 +308,12 @@ impl GenCfg {
                 c.p_dep = 8;
                 c.p_tl = 0;
                 c.max_n = 18;
+            }
+            "joinbatch" => {
+                c.join_batch = true;
+                c.p_batch = 10;
+                c.max_n = 6;
+                c.p_tl = 0;
             }
             "phname" => {
                 c.placeholder_names = true;
@@ -552,6 +562,45 @@ impl Gen {
                 v.push(Op::Sys { tag, name: format!("d{}", tag), deps: vec![], r: vec![], w: vec![], t: 1 });
                 v.push(Op::Barrier);
             }
+        }
+        if self.cfg.join_batch && depth == 0 {
+            let mut tag = || {
+                let t = self.next_tag;
+                self.next_tag += 1;
+                t
+            };
+            let (bt, t0, t1, t2, t3) = (tag(), tag(), tag(), tag(), tag());
+            let u: Res = (3, self.rng.below(NDY));
+            let a: Res = (1, self.rng.below(NDY));
+            let write_u = self.rng.chance(50);
+            // inner: a long system opens the stage; two short ones that conflict with each other share
+            // a group; the second of them alone declares `u`
+            let mut inner = vec![
+                Op::Sys { tag: t0, name: format!("s{}", t0), deps: vec![], r: vec![], w: vec![(2, 0)], t: 5 },
+                Op::Sys { tag: t1, name: format!("s{}", t1), deps: vec![], r: vec![], w: vec![a], t: 1 },
+                Op::Sys { tag: t2, name: format!("s{}", t2), deps: vec![], r: if write_u { vec![] } else { vec![u] }, w: if write_u { vec![a, u] } else { vec![a] }, t: 1 },
+            ];
+            if self.rng.chance(40) {
+                inner.swap(0, 1);
+                inner.swap(1, 2);
+            }
+            let ctl = if self.rng.chance(35) { 9 } else { 0 };
+            let batch = Op::Batch { tag: bt, name: format!("s{}", bt), deps: vec![], ctl, t: 1 + self.rng.below(5) as u8, n: 1 + self.rng.below(2) as usize, inner };
+            // an outer system that conflicts with the batch through `u` only
+            let outer = Op::Sys { tag: t3, name: format!("s{}", t3), deps: vec![], r: if write_u && self.rng.chance(50) { vec![u] } else { vec![] }, w: if write_u && self.rng.chance(50) { vec![] } else { vec![u] }, t: 1 + self.rng.below(5) as u8 };
+            let outer = match outer {
+                Op::Sys { tag, name, deps, r, w, t } if r.is_empty() && w.is_empty() => Op::Sys { tag, name, deps, r: vec![], w: vec![u], t },
+                o => o,
+            };
+            if self.rng.chance(50) {
+                v.push(batch);
+                v.push(outer);
+            } else {
+                v.push(outer);
+                v.push(batch);
+            }
+            names.push(format!("s{}", bt));
+            names.push(format!("s{}", t3));
         }
         if self.cfg.fat && depth == 0 {
             // a long system opens the stage, so that the others may join groups
